@@ -210,10 +210,17 @@ func Join(parts []string) string { return strings.Join(parts, "; ") }
 // overflows coqc's stack), each chunk evaluated with the model's
 // "<fromFn> <first index> <chunk>" so that reported indices are global.
 func CasesV(header, typ, fromFn string, items []string, chunk int) string {
+	return CasesVAt(header, typ, fromFn, items, chunk, 0, "")
+}
+
+// CasesVAt is CasesV for a second list in the same run: indices start at
+// offset (the position of the first item in cases.jsonl) and the definitions
+// are named cases<tag><k> / M<tag><k>.
+func CasesVAt(header, typ, fromFn string, items []string, chunk, offset int, tag string) string {
 	var sb strings.Builder
 	sb.WriteString(header)
 	if len(items) == 0 {
-		fmt.Fprintf(&sb, "Definition cases0 : list %s := [].\nDefinition M0 := Eval vm_compute in %s 0%%N cases0.\nPrint M0.\n", typ, fromFn)
+		fmt.Fprintf(&sb, "Definition cases%s0 : list %s := [].\nDefinition M%s0 := Eval vm_compute in %s 0%%N cases%s0.\nPrint M%s0.\n", tag, typ, tag, fromFn, tag, tag)
 		return sb.String()
 	}
 	for k := 0; k*chunk < len(items); k++ {
@@ -221,8 +228,8 @@ func CasesV(header, typ, fromFn string, items []string, chunk int) string {
 		if hi > len(items) {
 			hi = len(items)
 		}
-		fmt.Fprintf(&sb, "Definition cases%d : list %s := \n%s.\n", k, typ, vh.CoqList(items[lo:hi]))
-		fmt.Fprintf(&sb, "Definition M%d := Eval vm_compute in %s %d%%N cases%d.\nPrint M%d.\n", k, fromFn, lo, k, k)
+		fmt.Fprintf(&sb, "Definition cases%s%d : list %s := \n%s.\n", tag, k, typ, vh.CoqList(items[lo:hi]))
+		fmt.Fprintf(&sb, "Definition M%s%d := Eval vm_compute in %s %d%%N cases%s%d.\nPrint M%s%d.\n", tag, k, fromFn, offset+lo, tag, k, tag, k)
 	}
 	return sb.String()
 }
